@@ -27,7 +27,8 @@ TASK_WEIGHTS = {
             "valedit": 1, "cloner": 1},
 }
 
-ALL_FAULTS = ("solver_raise", "solver_badshape", "singular", "unknown_term",
+ALL_FAULTS = ("solver_raise", "solver_badshape", "solver_scribble", "solver_nan",
+              "singular", "unknown_term",
               "radial_periodic", "bad_shape_assign", "partial_utility",
               "update_mismatch")
 
@@ -285,6 +286,10 @@ class Task:
             return "ext_raise"
         if "solver_badshape" in f and u < 0.2:
             return "ext_badshape"
+        if "solver_scribble" in f and u < 0.3:
+            return "ext_scribble_raise" if rng.random() < 0.6 else "ext_scribble"
+        if "solver_nan" in f and u < 0.35:
+            return "ext_nan"
         if g.sw["ext_solver"] and u < 0.5:
             return "ext" if rng.random() < 0.75 else "ext_mark"
         return None
@@ -372,6 +377,8 @@ class LoopBase(Task):
                 s["scale"] = g.r(0.5, 2.0, 2)
                 if rng.random() < 0.3:
                     s["neg"] = True
+            if role != "trans" and rng.random() < 0.1:
+                s["fmt"] = rng.choice(("csc", "coo"))
             specs.append(s)
         rng.shuffle(specs)
         if "unknown_term" in g.sw["faults"] and rng.random() < 0.1:
@@ -960,6 +967,10 @@ class FaultInjector(Task):
             mode = "ext_raise"
         elif kind == "solver_badshape":
             mode = "ext_badshape"
+        elif kind == "solver_scribble":
+            mode = "ext_scribble_raise" if rng.random() < 0.6 else "ext_scribble"
+        elif kind == "solver_nan":
+            mode = "ext_nan"
         elif kind == "unknown_term":
             specs.insert(rng.randrange(len(specs) + 1), {"bad": "ndim3"})
         elif kind == "singular":
